@@ -39,8 +39,8 @@ End InlInd.
 (* ---- C10.1: the cleanup touches exactly the wholly-bold ATX headings ---- *)
 Definition wholly_bold (l : leaf) : option leaf :=
   match l with
-  | LHeading false lv [INode KStrong cs] => Some (LHeading false lv cs)
-  | LHeading false lv [INode KEmph [INode KStrong cs]] => Some (LHeading false lv [INode KEmph cs])
+  | LHeading sx lv [INode KStrong cs] => Some (LHeading sx lv cs)
+  | LHeading sx lv [INode KEmph [INode KStrong cs]] => Some (LHeading sx lv [INode KEmph cs])
   | _ => None
   end.
 
@@ -280,12 +280,8 @@ Section RenderFacts.
         unfold bind in H.
         match type of H with match ?g with _ => _ end = _ => destruct g as [r|] eqn:E end; [|discriminate].
         injection H as <- _.
-        revert E. generalize 0%Z. generalize (set_tight
-             match spacing with
-             | LPreserve => tight
-             | LLoose => false
-             | LTight => forallb (fun it : blk => match it with BNode KItem cs => (length cs <=? 1)%nat | _ => true end) c
-             end (set_skip false st)).
+        revert E.
+        match goal with |- ?f c ?z ?s = _ -> _ => generalize z; generalize s end.
         clear K. revert r. induction IH' as [|x l Hx _ IHl]; intros r s0 z E; cbn in E.
         * injection E as <-. now left.
         * unfold bind in E.
